@@ -45,8 +45,9 @@ class Scenario:
                 t.lines.append(line)
                 drive(agen.__anext__())
         self.sent: dict[tuple, list[str]] = {}
+        self.pad = "   " if cfg.get("pad") else ""  # values that end in blanks (a text padded to the width of a display)
         for i, k in enumerate(cfg["parked"]):
-            val = f"p{i}"
+            val = f"p{i}" + self.pad
             self.sent.setdefault(key_of(k), []).append(val)
             drive(gw.send(msg_of(k, val)))
         # the node has itself reported, for key A, the very value sender 0 will send first (and for key B a parked one)
@@ -57,6 +58,9 @@ class Scenario:
         t.sync = False
         # what the listener receives: the wake, optionally followed by echoes of earlier commands (ack flag set)
         self.script = [f"1;255;3;0;{self.wt};0"] + [f"1;3;1;1;2;{e}" for e in cfg.get("echoes", [])]
+        if cfg.get("represent"):
+            # the sleeping node reboots: it presents itself (and its children) again, then announces it is awake
+            self.script = [f"1;255;0;0;17;{v}", "1;3;0;0;3;", "1;4;0;0;3;"] + self.script
         if cfg.get("req"):
             # before it wakes, the (sleeping) node asks for the value of child 4 / type 2, for which a command is parked
             self.script = ["1;4;2;0;2;"] + self.script
@@ -99,7 +103,7 @@ class Scenario:
 
     async def _sender(self, i: int):
         for j, k in enumerate(self.cfg["senders"][i]):
-            val = f"s{i}{j}"
+            val = f"s{i}{j}" + self.pad
             self.sent.setdefault(key_of(k), []).append(val)  # send order = order in which send calls start
             if self.t.pending_writes:
                 self.nontrivial = True  # a send runs while a flush write is in flight
@@ -113,7 +117,7 @@ class Scenario:
         self.t.pending_writes[:] = [e for e in self.t.pending_writes if not e[0].done()]
         if self.script_pos < len(self.script) and self.t.pending_read is not None:
             nxt = self.script[self.script_pos]
-            evs.append("wake" if nxt.split(";")[4] == str(self.wt) and nxt.split(";")[2] == "3" else ("req" if nxt.split(";")[2] == "2" else "echo"))
+            evs.append("wake" if nxt.split(";")[4] == str(self.wt) and nxt.split(";")[2] == "3" else ("req" if nxt.split(";")[2] == "2" else ("present" if nxt.split(";")[2] == "0" else "echo")))
         for i in range(len(self.t.pending_writes)):
             evs.append(f"write:{i}")
             if self.fail_budget > 0:
@@ -126,7 +130,7 @@ class Scenario:
         return evs
 
     def fire(self, label: str) -> None:
-        if label in ("wake", "echo", "req"):
+        if label in ("wake", "echo", "req", "present"):
             self.wake_delivered = True
             self.t.deliver(self.script[self.script_pos])
             self.script_pos += 1
@@ -235,6 +239,11 @@ def configs(ctx: core.Ctx) -> list:
         {"parked": [A], "senders": [[A], [A]], "sender_acks": [1, 0]},
         {"parked": [A, B], "senders": [[A, B], [A]], "sender_acks": [1, 0]},
         {"parked": [], "senders": [[A], [A], [A]], "sender_acks": [0, 1, 0]},
+        # the sleeping node reboots and presents itself again before it announces that it is awake
+        {"parked": [A, B], "senders": [[B]], "represent": True},
+        {"parked": [A, C], "senders": [[C], [A]], "represent": True},
+        # values that end in blanks
+        {"parked": [A], "senders": [[A]], "pad": True},
         # the sleeping node asks for a value a command is parked for, then wakes
         {"parked": [C], "senders": [[C]], "req": True},
         {"parked": [A, C], "senders": [[C], [A]], "req": True},
